@@ -79,7 +79,7 @@ func receiversC07() []namedD {
 	}
 }
 
-var argPoolC07 = []string{"0", "-1", "1.5", "1e30", "9223372036854775808", `""`, `"a"`, "true", "$.arr", `"$.k"`, "{$.t}", "2"}
+var argPoolC07 = []string{"0", "-1", "1.5", "1e30", `""`, `"a"`, "true", "$.arr", `"$.k"`, "{$.t}", "2"}
 
 func funcNames() []string {
 	fs := mpath.ListFunctions()
